@@ -37,6 +37,7 @@ def read (m : Mem) (h : Hdr) : List Addr := (cells m h.arr).take h.len
 inductive Prim
   | write (i : Nat) (a : Addr)
   | realloc (i : Nat) (content : List Addr) (len cap : Nat)
+deriving DecidableEq, Repr
 
 def step (m : Mem) : Prim → Mem
   | .write i a =>
